@@ -8,6 +8,9 @@ the filtered / dispersed chain whenever the received samples stay closer than ha
 -/
 import OptiVerif.Lemmas.Link
 import OptiVerif.Props.C12
+import OptiVerif.Model.Dac
+import Mathlib.Data.Rat.Cast.Defs
+import Mathlib.Data.Real.Basic
 
 namespace OptiVerif.Props.C03
 open OptiVerif OptiVerif.Link OptiVerif.Modulators
@@ -126,6 +129,21 @@ theorem counter_zero_of_link (kPD lossdB erdB Vpi biasM vout bias : ℝ) (sps i 
           (rx kPD lossdB erdB Vpi biasM (lvl vout bias true)) y
           ((rx kPD lossdB erdB Vpi biasM (lvl vout bias false) + rx kPD lossdB erdB Vpi biasM (lvl vout bias true)) / 2))) = 0 := by
   rw [memoryless_link kPD lossdB erdB Vpi biasM vout bias sps i hi bits hlev, errors_self]
+
+/-! ### the link's NRZ waveform is C05's DAC model -/
+
+/-- the slot waveform used by the link theorems is exactly the (exact, rational) DAC model of C05 — `np.kron` expansion then
+    `x*Vout + bias` — read in ℝ: the chain proved above really starts at the modelled DAC -/
+theorem nrz_is_dac (vout bias : ℚ) (sps : ℕ) (bits : List Bool) :
+    (Dac.scale (Dac.kron (bits.map Bool.toNat) sps) (some vout) (some bias)).map (fun q : ℚ => (q : ℝ))
+      = nrz (vout : ℝ) (bias : ℝ) sps bits := by
+  simp only [Dac.scale, Dac.kron, nrz, List.map_map]
+  induction bits with
+  | nil => rfl
+  | cons b bs ih =>
+    simp only [List.map_cons, List.flatMap_cons, List.map_append, ih]
+    congr 1
+    cases b <;> simp [Dac.lvl, lvl, Function.comp_def]
 
 /-! ### PPM over the same link: soft decision returns the codeword (composition with C12) -/
 
